@@ -3,6 +3,7 @@
   Property theorems about CM.Model.Rel (tied to /repo by the S-REL correspondence).
 -/
 import CM.Proofs.CheckIds
+import CM.Proofs.FilterBag
 import CM.Model.Rel
 namespace CM.C15
 open CM
@@ -94,5 +95,21 @@ theorem node_checkids_rejects (d : DenCfg) (x : String) (tids : BTerm) (v : Val)
     ((BTerm.node .checkIds [.inp x, tids]).den d).h.map (·.1) = .ok (.leaf v) := by
   obtain ⟨hg1, hg2⟩ := checkIds_guard_den d x tids v ids hh hx hih hiv
   exact ⟨by rw [hg2, hout]; rfl, hg1⟩
+
+/-- **Node level: Filter changes only the ids** (`CM.Model.FilterBag` = `Filter._prepare_container` + `DynamicConnectLayer._connect`,
+compared with the real containers in S-FACTORY/filter).  For every well-formed previous container and whatever predicate graph the
+filter edge `e` carries: the result is well-formed; every field other than the keys computes exactly the term it computed before -
+the same value and the same node hash on every input; the keys are the filter edge applied to the previous keys; no name appears
+or disappears. -/
+theorem node_filter_changes_only_ids {l b c : Bag} {e : EdgeK} {keys : String} (hl : l.WF) (hb : filterBag e keys = .ok b)
+    (he : e ≠ .identity) (hc : connectBags l b = .ok c) :
+    c.WF ∧
+    (∀ x, x ≠ keys → ∀ t, c.Field x t ↔ l.Field x t) ∧
+    (∀ t, c.Field keys t ↔ ∃ tk, Glue l (.inp keys) tk ∧ t = .node e [tk]) ∧
+    (∀ x, x ∈ names c.outputs ↔ x = keys ∨ x ∈ names l.outputs) :=
+  filter_layer hl hb he hc
+
+/-- non-vacuity (a test): the container of a filter exists and is well-formed -/
+example : ∃ b, filterBag (.function "$filter" [] []) "ids" = .ok b ∧ b.wfB = true := ⟨_, rfl, by decide +kernel⟩
 
 end CM.C15
